@@ -156,9 +156,9 @@ def run(ctx):
     ctx.assumptions += ["docutils front end, pre-transform doctree, doctitle_xform off",
                         "the generated Markdown tokenises to the intended blocks (marker words are checked to be present exactly once)"]
     full = {"Levels": {1, 2, 3, 4, 5, 6}, "CLevels": {1, 3}, "Kinds": "<-AllKinds", "Incs": "<-IncsSmall",
-            "WithPara": True, "DevPruneOff": False, "DevMatchTitles": False}
+            "WithPara": True, "WithNestedInc": False, "DevPruneOff": False, "DevMatchTitles": False}
     honly = {"Levels": {1, 2, 3, 4, 5, 6}, "CLevels": {1}, "Kinds": "<-NoIncs", "Incs": "<-NoIncs",
-             "WithPara": False, "DevPruneOff": False, "DevMatchTitles": False}
+             "WithPara": False, "WithNestedInc": False, "DevPruneOff": False, "DevMatchTitles": False}
     from .c18 import _cfg
     invs = ["Structure", "Warnings", "Restored", "OpenMap"]
     # ---- T --------------------------------------------------------------------------------
@@ -187,8 +187,14 @@ def run(ctx):
                  wd=ctx.wd, timeout=3000)
     ctx.add_tlc("Sections_gen_levels", rg)
     recs += rg.records
-    titles = {"Levels": {1, 2, 3}, "CLevels": {1, 3}, "Kinds": "<-TitleKinds", "Incs": "<-NoIncs", "WithPara": True,
+    titles = {"Levels": {1, 2, 3}, "CLevels": {1, 3}, "Kinds": "<-TitleKinds", "Incs": "<-NoIncs", "WithPara": True, "WithNestedInc": False,
               "DevPruneOff": False, "DevMatchTitles": False}
+    nested = {"Levels": {1, 2, 3}, "CLevels": {1}, "Kinds": "<-NoIncs", "Incs": "<-IncsSmall", "WithPara": False, "WithNestedInc": True,
+              "DevPruneOff": False, "DevMatchTitles": False}
+    rg = tlc.run("Sections", _cfg(ctx, "s_gen_nested.cfg", {**nested, "MaxLen": 3 if quick else 4}, invariants=invs + ["Emit"]), wd=ctx.wd, timeout=3000)
+    tlc.expect_holds(rg, "Sections(nested includes) M |= S")
+    ctx.add_tlc("Sections_gen_nested_includes", rg, "an included file that includes a file, with heading offsets on both")
+    recs += rg.records
     rg = tlc.run("Sections", _cfg(ctx, "s_gen_titles.cfg", {**titles, "MaxLen": 3 if quick else 4}, invariants=invs + ["Emit"]),
                  wd=ctx.wd, timeout=3000)
     tlc.expect_holds(rg, "Sections(match_titles directives, intended) M |= S")
@@ -334,6 +340,13 @@ def _random_events(rnd):
             ev.append(["enter", rnd.randint(0, 3)])
             for _ in range(rnd.randint(1, 3)):
                 block(depth, True)
+            if rnd.random() < 0.3:          # an include inside the included file
+                ev.append(["enter", rnd.randint(0, 2)])
+                for _ in range(rnd.randint(1, 2)):
+                    block(depth, True)
+                ev.append(["exit"])
+                if rnd.random() < 0.5:
+                    block(depth, True)
             ev.append(["exit"])
         else:
             ev.append(["h", rnd.randint(1, 6)])
